@@ -92,7 +92,9 @@ def liveBufs (size : QEv → Nat) (sel : QEv → Bool) (q : Queue) (sched : List
 def Req.onQueue (r : Req) (size : QEv → Nat) (sel : QEv → Bool) (q : Queue) : Req :=
   { r with events := r.events.map fun e => { e with buf := q.view size sel } }
 
-/-- **the responder while other tasks push events**: `q` = the queue when the event section starts -/
+/-- **the responder while other tasks push events**: `q` = the queue at the FIRST `events.fetch` (a chunk
+may be sent before it — attribute chunks, a chunk sent for a status report —: pushes during those land in
+`q`; the driver counts them with `firstFetchMsgs`), `sched[k]` = the operations between fetch `k + 1` and `k + 2` -/
 def respondQ (c : Cfg) (r : Req) (size : QEv → Nat) (sel : QEv → Bool) (q : Queue) (sched : List (List QOp)) :
     Except Err (List ChunkOut) :=
   respondLive c (r.onQueue size sel q) (liveBufs size sel q sched)
